@@ -207,6 +207,31 @@ Fixpoint read_segs (git : bool) (l : list chars) : option (option (list seg)) :=
       end
   end.
 
+(* the pattern proper, after blanks, comment test and negation sign are dealt with *)
+Definition parse_body (git : bool) (ng : bool) (s2 : chars) : presult :=
+  let raw_segs := split_on is_slash s2 in
+  let anchored := match raw_segs with [] :: _ :: _ => true | _ => false end in
+  let body1 := if anchored then tl raw_segs else raw_segs in
+  let isdir := match rev body1 with [] :: _ :: _ => true | _ => false end in
+  let body := if isdir then removelast body1 else body1 in
+  match body with
+  | [] => PUnsup
+  | _ =>
+    match read_segs git body with
+    | None => PUnsup
+    | Some None => PErr
+    | Some (Some ss0) =>
+      let ss1 := dedupe ss0 in
+      let single := negb anchored && match ss1 with [_] => true | _ => false end in
+      let ss := if single && negb (match ss1 with [SDStar] => true | _ => false end)
+                then SDStar :: ss1 else ss1 in
+      let last_dstar := match rev ss1 with SDStar :: _ => true | _ => false end in
+      if isdir && last_dstar && negb (single && match ss1 with [SDStar] => true | _ => false end)
+      then PUnsup
+      else PPat {| p_neg := ng; p_dir := isdir; p_segs := ss |}
+    end
+  end.
+
 Definition parse (git : bool) (raw : string) : presult :=
   let s := list_of_string raw in
   if negb (forallb printable s) then PUnsup else
@@ -220,34 +245,9 @@ Definition parse (git : bool) (raw : string) : presult :=
       | c1 :: rest1 =>
         if Ascii.eqb c1 "#" then PNone
         else if is_slash c1 && match rest1 with [] => true | _ => false end then PNone
-        else
-          let '(ng, s2) := if Ascii.eqb c1 "!" then (true, rest1) else (false, s1) in
-          match s2 with
-          | [] => PUnsup
-          | _ =>
-            let raw_segs := split_on is_slash s2 in
-            let anchored := match raw_segs with [] :: _ :: _ => true | _ => false end in
-            let body1 := if anchored then tl raw_segs else raw_segs in
-            let isdir := match rev body1 with [] :: _ :: _ => true | _ => false end in
-            let body := if isdir then removelast body1 else body1 in
-            match body with
-            | [] => PUnsup
-            | _ =>
-              match read_segs git body with
-              | None => PUnsup
-              | Some None => PErr
-              | Some (Some ss0) =>
-                let ss1 := dedupe ss0 in
-                let single := negb anchored && match ss1 with [_] => true | _ => false end in
-                let ss := if single && negb (match ss1 with [SDStar] => true | _ => false end)
-                          then SDStar :: ss1 else ss1 in
-                let last_dstar := match rev ss1 with SDStar :: _ => true | _ => false end in
-                if isdir && last_dstar && negb (single && match ss1 with [SDStar] => true | _ => false end)
-                then PUnsup
-                else PPat {| p_neg := ng; p_dir := isdir; p_segs := ss |}
-              end
-            end
-          end
+        else if Ascii.eqb c1 "!"
+             then match rest1 with [] => PUnsup | _ => parse_body git true rest1 end
+             else match s1 with [] => PUnsup | _ => parse_body git false s1 end
       end
     end
   | [] => PNone
